@@ -72,17 +72,37 @@ Print Assumptions c11_live_close_serving.
 (* 5c. the property's second sentence, over the requests of a side (issued at any time, answered or not, the side ending in any way):
        once the side has ended nobody keeps waiting - every request has its value (exactly when the peer's reply was dispatched:
        no phantom values) or fails with EOFError; a request issued after the end fails with EOFError and registers nothing.
-       What the model takes from the code: _cleanup clears the callback table (fact cleanup_hook_once_guard), serve() on a closed
-       channel raises EOFError (shape snapshots of Stream.poll / ClosedFile / Channel), _async_request on a closed channel raises
-       EOFError. Threads blocked inside poll/wait when the end comes are the scheduler scenarios of the harness, not this model. *)
-Theorem c11_ended_nobody_waits : forall P hr rc es e id, core_ok P = true -> must_end P e = true ->
-  wait_outcome (rstep P hr rc (RBase e) (rruns P hr rc es rfresh)) id <> WKeepsWaiting.
+       What the model takes from the code are three GENERATED facts [rc : rfacts] (c11_request_facts: all three hold on this tree):
+       every use of a closed stream's descriptor raises EOFError (so serve()/wait() on an ended side fail at once), _cleanup clears
+       the callback table, _async_request on a closed channel raises EOFError; each theorem names the fact it needs and has a
+       refutation for a tree without it. Threads blocked inside poll/wait when the end comes are the scheduler scenarios of the harness, not this model. *)
+Theorem c11_ended_nobody_waits : forall P hr rc es e id, core_ok P = true -> Lifecycle.closed_stream_raises_eof rc = true -> must_end P e = true ->
+  wait_outcome rc (rstep P hr rc (RBase e) (rruns P hr rc es rfresh)) id <> WKeepsWaiting.
 Proof. exact ends_and_nobody_waits. Qed.
-Theorem c11_no_phantom_value : forall P hr rc es id, wait_outcome (rruns P hr rc es rfresh) id = WValue -> In (RReply id) es.
+(* ... which rests on a fact of stream.py (generated: every use of a closed stream's descriptor raises EOFError): without it a request
+   pending when the side ended waits for ever *)
+Theorem c11_ended_waits_refuted : forall rc s id, Lifecycle.closed_stream_raises_eof rc = false -> ~ In id (got s) -> ~ In id (failed s) ->
+  wait_outcome rc s id = WKeepsWaiting.
+Proof. exact ended_waits_refuted. Qed.
+(* nothing stays registered on a side that has ended - a fact of _cleanup (generated: the clears include the callback table) *)
+Theorem c11_ended_nothing_registered : forall P hr rc es e, core_ok P = true -> Lifecycle.cleanup_clears_callbacks rc = true -> must_end P e = true ->
+  pend (rstep P hr rc (RBase e) (rruns P hr rc es rfresh)) = [].
+Proof. exact ended_nothing_registered. Qed.
+Theorem c11_ended_registered_refuted : forall P hr rc es e, Lifecycle.cleanup_clears_callbacks rc = false ->
+  pend (rstep P hr rc (RBase e) (rruns P hr rc es rfresh)) = pend (rruns P hr rc es rfresh).
+Proof. exact ended_registered_refuted. Qed.
+Theorem c11_no_phantom_value : forall P hr rc es id, wait_outcome rc (rruns P hr rc es rfresh) id = WValue -> In (RReply id) es.
 Proof. intros P hr rc es id H. destruct (value_only_if_replied P hr rc es rfresh id H) as [[]|H']; exact H'. Qed.
 Theorem c11_issue_after_end : forall P hr rc s id w, chan_open (base s) = false ->
-  pend (rstep P hr rc (RIssue id w) s) = pend s /\ (~ In id (got s) -> wait_outcome (rstep P hr rc (RIssue id w) s) id = WEofError).
+  pend (rstep P hr rc (RIssue id w) s) = pend s /\ (~ In id (got s) -> wait_outcome rc (rstep P hr rc (RIssue id w) s) id = WEofError).
 Proof. exact issue_after_end. Qed.
+(* the three facts as the current tree has them *)
+Theorem c11_request_facts : Fgen = std_rfacts.
+Proof. exact tie_rfacts. Qed.
+Print Assumptions c11_ended_waits_refuted.
+Print Assumptions c11_ended_nothing_registered.
+Print Assumptions c11_ended_registered_refuted.
+Print Assumptions c11_request_facts.
 Print Assumptions c11_ended_nobody_waits.
 Print Assumptions c11_no_phantom_value.
 Print Assumptions c11_issue_after_end.
@@ -106,7 +126,8 @@ Example c11_histories :
 Proof. vm_compute. repeat split. Qed.
 (* requests 1 and 2 issued, 1 answered, the peer closes, request 3 issued afterwards: 1 has its value, 2 and 3 fail with EOFError *)
 Example c11_requests_sample :
-  let s := rruns std_params false true [RIssue 1 WOk; RIssue 2 WOk; RReply 1; RBase EHandleClose; RIssue 3 WOk] rfresh in
-  wait_outcome s 1 = WValue /\ wait_outcome s 2 = WEofError /\ wait_outcome s 3 = WEofError /\ pend s = []
-  /\ wait_outcome (rruns std_params false true [RIssue 1 WOk] rfresh) 1 = WKeepsWaiting.
+  let F := std_rfacts in
+  let s := rruns std_params false F [RIssue 1 WOk; RIssue 2 WOk; RReply 1; RBase EHandleClose; RIssue 3 WOk] rfresh in
+  wait_outcome F s 1 = WValue /\ wait_outcome F s 2 = WEofError /\ wait_outcome F s 3 = WEofError /\ pend s = []
+  /\ wait_outcome F (rruns std_params false F [RIssue 1 WOk] rfresh) 1 = WKeepsWaiting.
 Proof. vm_compute. repeat split. Qed.
